@@ -80,6 +80,11 @@ pub fn replay(idx: usize, rec: &Value, workdir: &str) -> Value {
             text.push_str(l.as_str().unwrap());
             text.push_str(nl);
         }
+        // the file with the bad entry may end at end of file, without a final line ending
+        if rec["eof"] == true && f["path"] == rec["badfile"] {
+            let n = text.len() - nl.len();
+            text.truncate(n);
+        }
         (f["path"].as_str().unwrap().to_string(), text)
     }).collect();
     let ex = &rec["expect"];
